@@ -7,10 +7,36 @@ texts = json.load(open(V + '/tools/manifest_text.json'))
 na_reasons = texts.get("_not_applicable", {})
 checks = []
 na = []
+def from_evidence(pid):
+    """level text / note derived from the rule descriptions the check itself publishes"""
+    try:
+        ev = json.load(open('%s/evidence/%s.json' % (V, pid)))
+    except Exception:
+        return {}
+    exp = ev["coverage"]["explanation"]
+    m = re.search(r"Rules applied: (.*?)( \|\| NOT decided: (.*))?$", exp, re.S)
+    if not m:
+        return {}
+    rules = [r.strip() for r in m.group(1).split(" | ") if r.strip()]
+    short = []
+    for r in rules:
+        rid, _, desc = r.partition(": ")
+        d = desc if len(desc) <= 230 else desc[:230].rsplit(" ", 1)[0] + " …"
+        short.append("%s %s" % (rid, d))
+    notdec = (m.group(3) or "").strip()
+    return {
+        "text": "Static analysis of the compiled program (level other): decides, on every path / call site / variant of the anchored code, the structural "
+                "clauses " + "; ".join(short) + ". These are necessary conditions of the property, not the behaviour as a whole.",
+        "note": "Not decided (runtime remainder, not claimed): " + (notdec or "-") + ". Trusted base: rustc name/type resolution and MIR construction; the rule "
+                "tables under /verif/rules; the fixture crate /verif/zoo for macro expansions. Known genuine defects are listed in known_findings.json and printed as KNOWN-FINDING lines.",
+    }
+
+
 for p in props:
     pid = p['id']
     if os.path.exists('%s/rules/%s.py' % (V, pid)) and pid not in na_reasons:
-        t = texts.get(pid, {})
+        t = dict(from_evidence(pid))
+        t.update(texts.get(pid, {}))
         checks.append({
             "property_id": pid,
             "quick_cmd": "./check %s --tier quick" % pid,
@@ -44,7 +70,7 @@ m = {
     ],
     "checks": checks,
     "not_applicable": na,
-    "notes": "Technique family: static analysis only. Every check re-extracts facts when /repo's working tree hash changes (cached otherwise). Known genuine defects are listed in known_findings.json and printed as KNOWN-FINDING lines.",
+    "notes": "Technique family: static analysis only. Every check re-extracts facts when /repo's working tree hash changes (cached otherwise). quick = all rules over the default build configuration; thorough = the same rules over the default and the wide feature configuration plus a checker self-test that re-applies the seeded changes of /verif/seeded to a scratch copy of the current tree. Known genuine defects are listed in known_findings.json and printed as KNOWN-FINDING lines; repaired ones are under its fixed list and in hooks.source_commits.",
 }
 json.dump(m, open(V + '/MANIFEST.json', 'w'), indent=1)
 print(len(checks), "checks;", len(na), "not applicable")
